@@ -350,8 +350,13 @@ func (g *gen) call(flavor string, maxLeaves int) Event {
 				x = g.mutate(x)
 			}
 			l = append(l, x)
-			if g.rng.Intn(5) == 0 {
-				l = append(l, x)
+			switch g.rng.Intn(8) {
+			case 0:
+				l = append(l, x) // exact repeat
+			case 1:
+				l = append(l, strings.ToLower(x)) // equal up to case, possibly different validity (operators are case-sensitive)
+			case 2:
+				l = append(l, strings.ToUpper(x))
 			}
 		}
 		return eventOf(obsValidate(l), "", l)
